@@ -25,6 +25,11 @@
  *              y = fail hard with errno <arg> on this call only (a one-off EIO)
  *              K = the process is killed (SIGKILL) at this call: <arg> bytes of the request are transferred first (0 = none)
  *   FMLSIM_CLOCK_S=<seconds> added to every scripted reading (years beyond what fits into 64-bit nanoseconds: 2262, 2554)
+ *   FMLSIM_SCHED_DIR=<dir>, FMLSIM_SCHED_ID=<name>, FMLSIM_SCHED_AT=<kind>[,<kind>...]
+ *                            cooperative scheduling of several live processes by the harness: before each of its first 8 calls of a
+ *                            listed kind (openw = open for writing/creating, mkdir, rename, unlink, flock, writef = write on fd >= 3)
+ *                            the process announces itself (<dir>/<name>.<n>.at) and waits until the harness lets it go
+ *                            (<dir>/<name>.<n>.go). Who proceeds is the harness's decision, not the kernel's.
  *   FMLSIM_AS=<bytes>        address-space rlimit of the child instead of the default 12 GiB (a container's memory limit, ulimit -v)
  */
 #define _GNU_SOURCE
@@ -63,6 +68,10 @@ static int jump_len = 0;
 static int initialised = 0;
 static int inert = 0;
 static int64_t clock_extra_s = 0;
+static char sched_dir[512];
+static char sched_id[32];
+static char sched_at[128];
+static int sched_on = 0, sched_seq = 0;
 
 static uint64_t splitmix(void) {
     uint64_t z = (rnd_state += 0x9E3779B97F4A7C15ull);
@@ -114,8 +123,15 @@ static void init(void) {
         setrlimit(RLIMIT_AS, &rl);
     }
     if ((s = getenv("FMLSIM_CLOCK_S")) && *s) clock_extra_s = strtoll(s, NULL, 10);
+    {
+        const char *d = getenv("FMLSIM_SCHED_DIR"), *i = getenv("FMLSIM_SCHED_ID"), *a = getenv("FMLSIM_SCHED_AT");
+        if (d && *d && i && *i && a && *a && strlen(d) < sizeof sched_dir - 64 && strlen(i) < sizeof sched_id && strlen(a) < sizeof sched_at - 2) {
+            strcpy(sched_dir, d); strcpy(sched_id, i); sched_at[0] = ','; strcpy(sched_at + 1, a); strcat(sched_at, ",");
+            sched_on = 1;
+        }
+    }
     if ((s = getenv("FMLSIM_TRACE")) && *s) {
-        int fd = open(s, O_WRONLY | O_CREAT | O_APPEND | O_CLOEXEC, 0644);
+        int fd = (int)syscall(SYS_openat, AT_FDCWD, s, O_WRONLY | O_CREAT | O_APPEND | O_CLOEXEC, 0644);
         if (fd >= 0) {
             int hi = fcntl(fd, F_DUPFD_CLOEXEC, 1000);
             if (hi >= 0) { close(fd); trace_fd = hi; } else trace_fd = fd;
@@ -210,12 +226,75 @@ static int over_budget(void) {
     return 0;
 }
 
+
+/* ---- cooperative scheduling points ------------------------------------------------------------------------------------ */
+static void sched_point(const char *kind) {
+    if (!sched_on || inert || sched_seq >= 8) return;
+    char needle[40];
+    snprintf(needle, sizeof needle, ",%s,", kind);
+    if (!strstr(sched_at, needle)) return;
+    int n = sched_seq++;
+    char path[700];
+    snprintf(path, sizeof path, "%s/%s.%d.at", sched_dir, sched_id, n);
+    int fd = (int)syscall(SYS_openat, AT_FDCWD, path, O_WRONLY | O_CREAT | O_CLOEXEC, 0644);
+    if (fd >= 0) { long r = syscall(SYS_write, fd, kind, strlen(kind)); (void)r; syscall(SYS_close, fd); }
+    trace("S %d %s parked\n", n, kind);
+    snprintf(path, sizeof path, "%s/%s.%d.go", sched_dir, sched_id, n);
+    struct timespec t0, t1;
+    syscall(SYS_clock_gettime, CLOCK_MONOTONIC, &t0);
+    for (long spins = 0;; spins++) {
+        if (syscall(SYS_access, path, F_OK) == 0) break;
+        struct timespec nap = { 0, 100000 };
+        syscall(SYS_nanosleep, &nap, NULL);
+        if ((spins & 1023) == 1023) {
+            syscall(SYS_clock_gettime, CLOCK_MONOTONIC, &t1);
+            if (t1.tv_sec - t0.tv_sec > 40) break; /* the harness is gone: do not hang for ever */
+        }
+    }
+}
+
+static int flags_write(int flags) { return (flags & O_ACCMODE) != O_RDONLY || (flags & (O_CREAT | O_TRUNC | O_APPEND)); }
+
+int open(const char *path, int flags, ...) {
+    init();
+    mode_t mode = 0;
+    if (flags & (O_CREAT | O_TMPFILE)) { va_list ap; va_start(ap, flags); mode = va_arg(ap, mode_t); va_end(ap); }
+    if (flags_write(flags)) sched_point("openw");
+    return (int)syscall(SYS_openat, AT_FDCWD, path, flags, mode);
+}
+int open64(const char *path, int flags, ...) {
+    init();
+    mode_t mode = 0;
+    if (flags & (O_CREAT | O_TMPFILE)) { va_list ap; va_start(ap, flags); mode = va_arg(ap, mode_t); va_end(ap); }
+    if (flags_write(flags)) sched_point("openw");
+    return (int)syscall(SYS_openat, AT_FDCWD, path, flags | O_LARGEFILE, mode);
+}
+int openat(int dirfd, const char *path, int flags, ...) {
+    init();
+    mode_t mode = 0;
+    if (flags & (O_CREAT | O_TMPFILE)) { va_list ap; va_start(ap, flags); mode = va_arg(ap, mode_t); va_end(ap); }
+    if (flags_write(flags)) sched_point("openw");
+    return (int)syscall(SYS_openat, dirfd, path, flags, mode);
+}
+int openat64(int dirfd, const char *path, int flags, ...) {
+    init();
+    mode_t mode = 0;
+    if (flags & (O_CREAT | O_TMPFILE)) { va_list ap; va_start(ap, flags); mode = va_arg(ap, mode_t); va_end(ap); }
+    if (flags_write(flags)) sched_point("openw");
+    return (int)syscall(SYS_openat, dirfd, path, flags | O_LARGEFILE, mode);
+}
+int mkdir(const char *path, mode_t mode) { init(); sched_point("mkdir"); return (int)syscall(SYS_mkdirat, AT_FDCWD, path, mode); }
+int rename(const char *a, const char *b) { init(); sched_point("rename"); return (int)syscall(SYS_renameat, AT_FDCWD, a, AT_FDCWD, b); }
+int unlink(const char *path) { init(); sched_point("unlink"); return (int)syscall(SYS_unlinkat, AT_FDCWD, path, 0); }
+int flock(int fd, int op) { init(); sched_point("flock"); return (int)syscall(SYS_flock, fd, op); }
+
 ssize_t write(int fd, const void *buf, size_t len) {
     init();
     if (inert) return syscall(SYS_write, fd, buf, len);
     if (fd == 2 || fd == trace_fd || fd < 1) return syscall(SYS_write, fd, buf, len);
     int c = fd == 1 ? 0 : 1;
     long n = counter[c]++;
+    if (c == 1) sched_point("writef");
     if (over_budget()) { errno = EIO; return -1; }
     if (len == 0) { trace("W %c %ld 0 -> 0\n", CLS[c], n); return syscall(SYS_write, fd, buf, len); }
     long d = decide(c, n, len);
